@@ -27,6 +27,10 @@ def parseCase (ws : List String) : Option (Input × Output) := do
   | ["idlist", w], [runs] => pure (⟨.idlist w⟩, .list (← parseRuns runs))
   | ["soak", w], [o, t, p, s, r] =>
     pure (⟨.soak w⟩, .summary (← kv "ops" o) (← kv "torn" t) (← kv "panics" p) (← kv "stalled" s) (← kv "races" r))
+  | ["pininfo", w], [st, er] =>
+    match st.splitOn "=", er.splitOn "=" with
+    | ["status", v], ["error", e] => pure (⟨.pininfo w⟩, .pininfo v (← bool01 e))
+    | _, _ => none
   | _, _ => none
 
 /-- is the observation one the model admits? -/
@@ -46,12 +50,14 @@ def arm (i : Input) (o : Output) : String :=
   | .window cap, .list l => if l.headD 0 > cap then "window-wrapped" else "window"
   | .idlist w, _ => "idlist-" ++ w
   | .soak w, _ => "soak-" ++ w
+  | .pininfo w, .pininfo st e => "pininfo-" ++ w ++ "-" ++ st ++ (if e then "-err" else "")
   | _, _ => "other"
 
 def trivial (o : Output) : Bool :=
   match o with
   | .list l => l.isEmpty
   | .summary ops _ _ _ _ => ops == 0
+  | .pininfo _ _ => false
 
 def answer (ws : List String) : String :=
   match parseCase ws with
